@@ -20,10 +20,12 @@ Idx(o, name) == CHOOSE i \in 1..Len(o) : o[i].name = name
 
 TraceBlob ==
     /\ l <= Len(TraceLog) /\ Ev.ev = "Blob" /\ l' = l + 1
-    /\ Ev.err = ""
+    /\ Ev.err \in {"", "refused"}
+    /\ (Ev.err = "refused") <=> Refuses(Ev.opt.mode, Ev.input)
     /\ (Ev.opt.mode # "lossless") => Ev.tartail = 0      \* the end-of-archive blocks of the input are kept in lossless mode only
     /\ input' = Ev.input /\ opt' = Ev.opt /\ phase' = "done"
-    /\ LET o == Written(Ev.opt.mode, Ev.input)
+    /\ (Ev.err = "refused") \/
+       LET o == Written(Ev.opt.mode, Ev.input)
            M == Ev.members
        IN  /\ Ev.order = o
            /\ Len(Ev.hdr) = Len(o)
@@ -40,7 +42,7 @@ TraceBlob ==
                        /\ o[a.i].name = b.name /\ a.type = b.type /\ a.size = b.size /\ a.o = b.o /\ a.cs = b.cs
                        /\ (a.type # "chunk") => (o[a.i].meta = b.meta /\ o[a.i].link = b.link)
                        /\ a.off = b.off /\ a.inner = b.inner
-    /\ lay' = [order |-> Ev.order, members |-> Ev.members, toc |-> Ev.toc, expected |-> Expected(Ev.opt.mode, Ev.input),
+    /\ lay' = [refused |-> Ev.err = "refused", order |-> Ev.order, members |-> Ev.members, toc |-> Ev.toc, expected |-> Expected(Ev.opt.mode, Ev.input),
                diffid |-> Ev.diffid, shaAll |-> Ev.shaAll, tocdigest |-> Ev.tocdigest, shaToc |-> Ev.shaToc,
                shaPayload |-> Ev.shaPayload, shaInput |-> Ev.shaInput]
 
